@@ -1221,3 +1221,238 @@ def rename_all_fields_rule(crate, prop, rule="C09.R3"):
         r.fail(prop, "anchor-missing rename_all_fields use", "from_variant neither combines rename_all with rename_all_fields nor reads it", b.file(), b.line())
     r.floor = 2
     return r
+
+
+# ------------------------------------------------------------------ Attr::merge, field by field
+
+def _side_slice(body, start_ops, limit=400):
+    """backward data slice from operands: ({(side, field)} read from the two parameters of merge, [call terminators])"""
+    sides, calls, seen, work = set(), [], set(), []
+
+    def feed(op):
+        pl = op_place(op) if isinstance(op, dict) and "k" in op and op["k"] in ("copy", "move", "const") else None
+        if pl is None:
+            return
+        if pl["l"] in (1, 2):
+            f = next((x[1:] for x in pl["p"] if x.startswith(".")), "*")
+            sides.add(("self" if pl["l"] == 1 else "other", f))
+        else:
+            work.append(pl["l"])
+    for o in start_ops:
+        feed(o)
+    while work and len(seen) < limit:
+        l = work.pop()
+        if l in seen:
+            continue
+        seen.add(l)
+        for blk, i, d in M.def_sites(body, l):
+            if body.is_cleanup(blk):
+                continue
+            if i == "term":
+                if d.get("inlined"):
+                    continue
+                calls.append(d)
+                for a in d["args"]:
+                    feed(a)
+                continue
+            rv = d["rv"]
+            k = rv["k"]
+            if k in ("use", "cast", "repeat"):
+                feed(rv["op"])
+            elif k in ("ref", "rawptr", "discr", "len"):
+                feed({"k": "copy", "pl": rv["pl"]})
+            elif k == "agg":
+                for o in rv["ops"]:
+                    feed(o)
+            elif k == "binop":
+                feed(rv["a"]); feed(rv["b"])
+            elif k == "unop":
+                feed(rv["a"])
+    return sides, calls
+
+
+def _merge_alternatives(body, op, depth=0):
+    """[(block, [operands the alternative is computed from], call-or-None)]: the definitions the merged value of one
+    field is chosen from (moves and tuple components are followed)"""
+    pl = op_place(op)
+    if pl is None or pl["l"] in (1, 2) or depth > 6:
+        return [(None, [op], None)]
+    comp = next((int(x[1:]) for x in pl["p"] if re.match(r"^\.\d+$", x)), None)
+    out = []
+    vds = [x for x in M.value_defs(body, pl["l"]) if not body.is_cleanup(x[0])]
+
+    def lift(sub, blk):
+        return [(blk if len(vds) > 1 or sb is None else sb, so, sc) for sb, so, sc in sub]
+    for blk, i, d in vds:
+        if i == "term":
+            out.append((blk, list(d["args"]), d))
+            continue
+        rv = d["rv"]
+        if rv["k"] in ("use", "cast") and op_place(rv["op"]) is not None and comp is None:
+            out += lift(_merge_alternatives(body, rv["op"], depth + 1), blk)
+        elif rv["k"] == "agg" and rv.get("tuple") and comp is not None and comp < len(rv["ops"]):
+            out += lift(_merge_alternatives(body, rv["ops"][comp], depth + 1), blk)
+        elif rv["k"] == "agg" and rv.get("variant") == "Some" and len(rv["ops"]) == 1:
+            out += lift(_merge_alternatives(body, rv["ops"][0], depth + 1), blk)     # `Some(x)` with x taken out of one side
+        elif rv["k"] == "agg":
+            out.append((blk, list(rv["ops"]), None))
+        elif rv["k"] == "binop":
+            out.append((blk, [rv["a"], rv["b"]], None))
+        elif rv["k"] in ("use", "cast", "unop"):
+            out.append((blk, [rv.get("op") or rv.get("a")], None))
+        elif rv["k"] in ("ref", "discr"):
+            out.append((blk, [{"k": "copy", "pl": rv["pl"]}], None))
+        else:
+            out.append((blk, [], None))
+    return out or [(None, [op], None)]
+
+
+def merge_summary(crate, attr):
+    """{field: {"type":.., "alternatives": [{"sides": {'self','other'}, "block":.., "order": 'self-first'|'other-first'|None,
+    "tests": {sides the dominating tests look at}, "test_values": [(side, value)]}]}} of `<attr as Attr>::merge`, or None"""
+    cands = [b for b in crate.bodies if re.search(r"%s as (\w+::)*Attr>::merge$" % attr, b.path)]
+    if len(cands) != 1:
+        return None, None
+    b = crate.ibody(cands[0].path)
+    fields = None
+    per_field, tys = {}, {}
+    d0 = M.value_defs(b, 0)
+    aggs = [d for blk, i, d in d0 if i != "term" and d["rv"]["k"] == "agg" and d["rv"].get("fields")]
+    if len(d0) == 1 and aggs:
+        rv = aggs[0]["rv"]
+        for name, op in zip(rv["fields"], rv["ops"]):
+            per_field[name] = _merge_alternatives(b, op)
+            tys[name] = b.local_ty(op_local(op)) if op_local(op) is not None else (M.op_const(op) or {}).get("ty")
+    else:
+        # `mut self` updated in place and returned
+        src = {op_place(d["rv"]["op"])["l"] for blk, i, d in d0 if i != "term" and d["rv"]["k"] == "use" and op_place(d["rv"]["op"]) is not None and not op_place(d["rv"]["op"])["p"]}
+        if src != {1}:
+            return b, None
+        for bx in crate.bodies:
+            for blk in range(bx.n):
+                for st in bx.stmts(blk):
+                    if st["k"] == "assign" and st["rv"]["k"] == "agg" and (st["rv"].get("adt") or "").endswith("::" + attr) and st["rv"].get("fields"):
+                        fields = st["rv"]["fields"]
+        if not fields:
+            return b, None
+        for name in fields:
+            alts = []
+            for blk in range(b.n):
+                if b.is_cleanup(blk):
+                    continue
+                for st in b.stmts(blk):
+                    if st["k"] != "assign":
+                        continue
+                    if st["dst"]["l"] == 1 and st["dst"]["p"] == ["." + name]:
+                        rv = st["rv"]
+                        o1 = rv.get("op") if rv["k"] in ("use", "cast") else rv.get("a")
+                        if isinstance(o1, dict) and op_local(o1) is not None:
+                            tys[name] = b.local_ty(op_local(o1))
+                        if rv["k"] in ("use", "cast") and op_place(rv["op"]) is not None:
+                            alts += [(sb if sb is not None else blk, so, sc) for sb, so, sc in _merge_alternatives(b, rv["op"])]
+                        elif rv["k"] == "binop":
+                            alts.append((blk, [rv["a"], rv["b"]], None))
+                        elif rv["k"] == "agg":
+                            alts.append((blk, list(rv["ops"]), None))
+                        else:
+                            alts.append((blk, [o1] if isinstance(o1, dict) else [], None))
+                    elif st["rv"]["k"] == "ref" and st["rv"].get("mut") and st["rv"]["pl"]["l"] == 1 and st["rv"]["pl"]["p"][:1] == ["." + name]:
+                        # `self.f.extend(..)`: the call that receives the borrow
+                        holder = {st["dst"]["l"]}
+                        for _ in range(3):
+                            for blk2 in range(b.n):
+                                for st2 in b.stmts(blk2):
+                                    if st2["k"] == "assign" and st2["rv"]["k"] in ("ref", "use", "cast"):
+                                        p2 = st2["rv"].get("pl") or op_place(st2["rv"].get("op"))
+                                        if p2 is not None and p2["l"] in holder:
+                                            holder.add(st2["dst"]["l"])
+                        for blk2, t in b.calls():
+                            if not b.is_cleanup(blk2) and not t.get("inlined") and any(op_local(a) in holder for a in t["args"]):
+                                alts.append((blk2, [{"k": "copy", "pl": {"l": 1, "p": ["." + name]}}] + list(t["args"]), t))
+            per_field[name] = alts or [(None, [{"k": "copy", "pl": {"l": 1, "p": ["." + name]}}], None)]
+    dom = b.dominators()
+    try_switches = {e["switch_block"] for e in M.try_edges(b)}
+    out = {}
+    for name, alts in per_field.items():
+        res = []
+        for blk, ops, call in alts:
+            sides, calls = _side_slice(b, ops)
+            mine = {s for s, f in sides if f == name}
+            foreign = sorted({"%s.%s" % (s, f) for s, f in sides if f != name})
+            order = None
+            for t in ([call] if call is not None else []) + calls:
+                last = (M.callee(t) or "").split("::")[-1]
+                if last in ("or", "or_else") and len(t["args"]) >= 2:
+                    rs, _ = _side_slice(b, [t["args"][0]])
+                    as_, _ = _side_slice(b, [t["args"][1]])
+                    rs, as_ = {s for s, f in rs if f == name}, {s for s, f in as_ if f == name}
+                    if rs == {"self"} and "other" in as_:
+                        order = "self-first"
+                    elif rs == {"other"} and "self" in as_:
+                        order = "other-first"
+            tests, values = set(), []
+            if blk is not None:
+                for w in sorted(dom.get(blk, ())):
+                    sw = b.term(w)
+                    if sw["k"] != "switch" or w == blk or w in try_switches:
+                        continue
+                    ts, _ = _side_slice(b, [sw["discr"]])
+                    ts = {s for s, f in ts if f == name}
+                    if not ts:
+                        continue
+                    tests |= ts
+                    edges = [(v, tg) for v, tg in sw["targets"]] + [("otherwise", sw["otherwise"])]
+                    took = [v for v, tg in edges if tg == blk or b.dominates(tg, blk)]
+                    direct = [d for bb, i, d in M.def_sites(b, op_local(sw["discr"]) or -1) if i != "term" and d["rv"]["k"] == "discr" and d["rv"]["pl"]["l"] in (1, 2) and d["rv"]["pl"]["p"] == ["." + name]]
+                    if len(took) == 1 and direct and len(ts) == 1:
+                        v = took[0]
+                        if v == "otherwise":
+                            vals = {x for x, _ in sw["targets"]}
+                            v = 1 if vals == {0} else 0 if vals == {1} else None
+                        values.append((next(iter(ts)), v))
+            res.append({"sides": mine, "foreign": foreign, "order": order, "tests": tests, "test_values": values, "block": blk,
+                        "calls": sorted({(M.callee(t) or "?").split("::")[-1] for t in ([call] if call is not None else []) + calls})})
+        out[name] = {"alternatives": res, "ty": tys.get(name)}
+    return b, out
+
+
+def merge_verdict(info, kind):
+    """kind 'option' (first one wins, self first), 'flag' (either side sets it) or 'union' (both contribute).
+    -> (verdict, text): verdict is 'ok', 'BAD' or 'undecided'"""
+    alts = info["alternatives"]
+    desc = "; ".join("%s%s%s" % ("+".join(sorted(a["sides"])) or "neither side", " via " + ",".join(a["calls"]) if a["calls"] else "",
+                                 " when a test of %s says %s" % ("+".join(sorted(a["tests"])), a["test_values"] or "?") if a["tests"] else "") for a in alts)
+    if any(a["order"] == "other-first" for a in alts):
+        return "BAD", desc + " - the #[serde] side is the receiver"
+    if kind in ("option", "flag") and any(a.get("foreign") for a in alts):
+        # every key is merged on its own (all sibling fields are); a value that also depends on a different key makes
+        # the outcome of `#[ts(a)] #[serde(b)]` differ from writing both keys with one spelling
+        return "BAD", desc + " - the merged value also depends on %s" % ", ".join(sorted({f for a in alts for f in a.get("foreign", [])}))
+    everything = set().union(*[a["sides"] | a["tests"] for a in alts]) if alts else set()
+    if not {"self", "other"} <= everything:
+        return "BAD", desc + " - only %s takes part" % ("+".join(sorted(everything)) or "neither side")
+    if kind == "flag":
+        return "ok", desc
+    if kind == "union":
+        if any({"self", "other"} <= a["sides"] for a in alts):
+            return ("ok" if all({"self", "other"} <= a["sides"] or a["tests"] for a in alts) else "undecided"), desc
+        return "BAD", desc + " - no alternative combines both sides"
+    # option: every alternative either combines both in the right order, or is one side chosen under a test of the same field
+    verdict = "ok"
+    for a in alts:
+        if {"self", "other"} <= a["sides"]:
+            if a["order"] != "self-first":
+                verdict = "undecided" if verdict == "ok" else verdict
+            continue
+        if not a["sides"]:
+            continue
+        if not a["tests"]:
+            return "BAD", desc + " - `%s` alone is taken without looking at the other side" % "+".join(sorted(a["sides"]))
+        side = next(iter(a["sides"]))
+        tv = dict(a["test_values"])
+        if side == "self" and tv.get("self") == 1 or side == "other" and tv.get("self") == 0:
+            continue
+        if side == "other" and tv.get("self") == 1 or side == "self" and tv.get("self") == 0 and "other" in everything and not any(v for s, v in a["test_values"] if s == "other"):
+            return "BAD", desc + " - `%s` is taken although the test says the #[ts] value is %s" % (side, "present" if tv.get("self") == 1 else "absent")
+        verdict = "undecided"
+    return verdict, desc
